@@ -542,8 +542,18 @@ class ResourceScenario(ScenarioData):
         # Working hours are defined in local time, but slots are in UTC
         resource_tz = self.property.get("timezone", self.scenarioIdx)
 
-        # Check if resource has a shift reference
+        # The calendar a resource declares itself takes precedence over the one it inherits: if the
+        # nearest declaration (this resource, else the closest enclosing group) is a set of working
+        # hours, a shift reference inherited from further up does not apply
         shift = self.property.get("shifts", self.scenarioIdx)
+        node: Any = self.property
+        while shift and node is not None:
+            if node.provided("shifts", self.scenarioIdx):
+                break
+            if node.provided("workinghours", self.scenarioIdx):
+                shift = None
+                break
+            node = node.parent
         if shift:
             # Use the shift's working hours
             shift_wh = shift.get("workinghours", self.scenarioIdx)
